@@ -4,6 +4,6 @@ CONSTANTS
   MaxLen = 4
   BDepth = 9
   Obs <- ObsEmit
-INVARIANTS TypeOK Sorted BagConservation FindIffPresent IterLaw
+INVARIANTS TypeOK Sorted BagConservation FindIffPresent FillLaw IterLaw
 PROPERTIES MutatorsOnly SlotsIndependent DupIsEqual
 CHECK_DEADLOCK FALSE
